@@ -1398,6 +1398,91 @@ fn gen_c19_conv(r: &mut Rng) -> Plan {
     p
 }
 
+fn gen_c19_dropped_writers(r: &mut Rng) -> Plan {
+    let mut cmds = Vec::new();
+    let n = 1 + r.usize_below(2);
+    for _ in 0..n {
+        let binary = r.coin();
+        let ncols = 1 + r.usize_below(3);
+        let nrows = 1 + r.usize_below(3);
+        let cols: Vec<ColSpec> = (0..ncols)
+            .map(|_| ColSpec {
+                table: Blob::lit(b"t"),
+                name: Blob::lit(b"c"),
+                coltype: 0xfd,
+                flags: 0,
+            })
+            .collect();
+        let rows: Vec<Vec<Cell>> = (0..nrows).map(|i| (0..ncols).map(|j| Cell::Str(Blob::Lit(format!("r{}c{}", i, j).into_bytes()))).collect()).collect();
+        let prog = Program {
+            units: vec![Unit::Rows(RowsUnit {
+                cols: cols.clone(),
+                rows,
+                write_row: false,
+                last_row_ended: false,
+                close: Close::Drop,
+                contra: None,
+                recover: None,
+            })],
+            end: End::Implicit,
+            ret_err: None,
+            probe_cells: false,
+            pull_params: None,
+            pull_skip: 0,
+            mixed_rows: 0,
+            ret_panic: false,
+        };
+        if binary {
+            cmds.push(Cmd {
+                seq: 0,
+                kind: CmdKind::Prepare(Blob::lit(b"p")),
+                act: Act::Prepare(PrepAct::Reply {
+                    id: 2,
+                    params: vec![],
+                    cols,
+                }),
+            });
+            cmds.push(Cmd {
+                seq: 0,
+                kind: CmdKind::Execute {
+                    stmt: 2,
+                    flags: 0,
+                    iters: 1,
+                    block: ParamBlock {
+                        bind: None,
+                        values: vec![],
+                        raw: None,
+                        stale_types: None,
+                    },
+                },
+                act: Act::Program(prog),
+            });
+        } else {
+            cmds.push(Cmd {
+                seq: 0,
+                kind: CmdKind::Query(Blob::lit(b"select dropped")),
+                act: Act::Program(prog),
+            });
+        }
+        cmds.push(Cmd {
+            seq: 0,
+            kind: CmdKind::Ping,
+            act: Act::None,
+        });
+    }
+    if r.coin() {
+        cmds.push(Cmd {
+            seq: 0,
+            kind: CmdKind::Quit,
+            act: Act::None,
+        });
+    }
+    let mut p = Plan::basic(cmds);
+    p.arrival = gen_arrival(r);
+    p.writes = gen_writes(r, false);
+    p
+}
+
 const ERR_KINDS: &[IoKind] = &[
     IoKind::ConnectionReset,
     IoKind::BrokenPipe,
@@ -1497,7 +1582,12 @@ impl Check for C19 {
             }
             return;
         }
-        let base = if job % 5 == 4 {
+        let base = if job % 20 == 7 {
+            // writers left to their destructors: the last row written cell by cell and not ended,
+            // the row writer (and with it the result writer) simply dropped -- every transport
+            // fault then lands in code that runs inside `Drop`
+            gen_c19_dropped_writers(rng)
+        } else if job % 5 == 4 {
             // the all-features conversation as the base (bounded so that the enumeration stays
             // small): faults then also land in recovering programs, many-packet replies, ...
             let mut b = loop {
